@@ -253,6 +253,9 @@ def rule_member_binding(w):
               "(patch entity -> base entity of that dimension)" % (e.src_key if e is not None else None, fd, fd), fn.file, (e.node if e is not None else {}).get("l") or fn.line)
         if sd != fd:
             rs = [x for x in fk.events if x.kind == "render" and x.obj == "this._elem_at_face"]
+            if not rs and [x for x in fk.events if x.kind in ("obj-assign", "call") and "_elem_at_face" in (x.get("key") or x.get("obj") or "")]:
+                ck.incomplete("E1.member-binding", "%s/_elem_at_face: the graph is not built in the initialiser list (assigned / built in the constructor body: not read)" % name)
+                continue
             ok = len(rs) == 1 and rs[0].render in ("transpose", "transpose_sorted") and rs[0].ops == ["ish.get_index_set<%d,%d>()" % (sd, fd)]
             ck.ob("E1.member-binding", "%s/_elem_at_face" % name, ok, "_elem_at_face = Graph(%s, %s); elements-at-face needs the transposed index set ish.get_index_set<%d,%d>()" % (
                 rs[0].render if rs else None, ", ".join(rs[0].ops) if rs else None, sd, fd), fn.file, rs[0].node.get("l") if rs else fn.line)
@@ -443,7 +446,10 @@ def rule_parti(w):
         cons = [e for e in fk.events if e.kind == "construct" and e.obj == "graph"]
         dims = (fk.norm(Lin.atom("Dom(graph)")), fk.norm(Lin.atom("Img(graph)")), fk.norm(Lin.atom("NZ(graph)")))
         want = (fk.norm(Lin.atom("this._num_ranks")), fk.norm(Lin.atom("this._ref_elems")), fk.norm(Lin.atom("this._ref_elems")))
-        ck.ob("E2.parti-coverage", name + "/dimensions", bool(cons) and dims == want, "Graph(%r, %r, %r): one node per rank, image = indices = the refined elements (%r, %r, %r)" % (dims + want), fn.file, fn.line)
+        if not cons:
+            ck.incomplete("E2.parti-coverage", "%s/dimensions: the graph is not constructed as `Graph graph(ranks, elems, elems)` (construction not read)" % name)
+        else:
+          ck.ob("E2.parti-coverage", name + "/dimensions", bool(cons) and dims == want, "Graph(%r, %r, %r): one node per rank, image = indices = the refined elements (%r, %r, %r)" % (dims + want), fn.file, fn.line)
         for key in ("graph._domain_ptr", "graph._image_idx"):
             ok, detail = coverage(fk, key)
             if ok is None:
@@ -473,10 +479,17 @@ def rule_parti(w):
         init = [e for e in fk.events if e.kind == "member-init" and e.key == "this._success"]
         problems = []
         unclear = []
-        if not (init and render(strip(init[0].init)) == "false"):
+        if not init:
+            unclear.append("_success has no initialiser in the constructor's initialiser list (default member initialiser / body assignment: not read)")
+        elif render(strip(init[0].init)) != "false":
             problems.append("_success is not initialised to false")
-        if len(sets) != 1 or render(strip(sets[0].node["rhs"])) != "true":
-            problems.append("%d assignments of _success" % len(sets))
+        if len(sets) == 1 and render(strip(sets[0].node["rhs"])) != "true":
+            unclear.append("_success is assigned the expression %s, not the literal true under a guard" % render(strip(sets[0].node["rhs"]))[:60])
+        elif len(sets) != 1:
+            if len(sets) == 0 and elsewhere(fk, ("this._success",), names=C12NAMES):
+                unclear.append("no assignment of _success found; %s" % elsewhere(fk, ("this._success",), names=C12NAMES))
+            else:
+                problems.append("%d assignments of _success" % len(sets))
         else:
             s = sets[0]
             cnt = None
@@ -555,7 +568,10 @@ def rule_parti(w):
             by.setdefault(br[-1] if br else "?", []).append(e)
         problems = []
         unclear = [x[0] for x in fk.unknown]
-        if set(by) != {"then", "else"} or len(by["then"]) != len(by["else"]) or len(by["then"]) != 2:
+        if "?" in by or not bc:
+            # broadcasts outside an if/else on the rank (helper, other control flow): pairing not read
+            unclear.append("the broadcasts are not all inside the two branches of one if/else (%s)" % ({k: len(v) for k, v in by.items()} or elsewhere(fk, ("graph",), names=C12NAMES) or "none found"))
+        elif set(by) != {"then", "else"} or len(by["then"]) != len(by["else"]) or len(by["then"]) != 2:
             problems.append("broadcasts are not paired in the two branches (%s)" % {k: len(v) for k, v in by.items()})
         else:
             for a, b in zip(by["then"], by["else"]):
@@ -941,7 +957,10 @@ def rule_halo_rebuild(w):
             ck.ob("E7.halo-rebuild", key, True, "every path through %s passes %s" % (fn.name, what), fn.file, fn.line)
             return
         fk = w.fk(fn)
-        why = elsewhere(fk, keys, names=("build", "clear", "get_num_entities", "size"))
+        # member helpers of the same class were looked into by the interprocedural must-pass: they are modelled
+        seen_helpers = tuple(h.name for n in w.norm.orig_nodes(fn) if n.get("k") in ("MCall", "Call") for h in [w.findex.lookup(n)]
+                             if h is not None and h.cls == fn.cls and h.cfg is not None)
+        why = elsewhere(fk, keys, names=("build", "clear", "get_num_entities", "size") + seen_helpers)
         if why or fk.unknown:
             ck.incomplete("E7.halo-rebuild", "%s: a path skips %s; %s" % (key, what, why or "unmodelled constructs"))
             return
@@ -1083,10 +1102,12 @@ def rule_halo_refined(w):
                         (arg.get("k") != "Call" or (arg.get("callee") or "") in ("std::move", "std::forward")):
                     arg = strip(arg["a"][0])
             loops = [f for f in e.frames if f.kind == "loop"]
-            if len(loops) != 1 or loops[0].loop is None or loops[0].loop.kind != "foreach":
+            lp0 = loops[0].loop if len(loops) == 1 else None
+            # range-based for over the map, or the iterator loop `for(it = map.begin(); it != map.end(); ++it)` over it
+            if lp0 is None or not (lp0.kind == "foreach" or (lp0.kind == "adj" and getattr(lp0, "container", False))):
                 ck.incomplete("E7.halo-refined", "%s: %s is not called from a loop over the node's mesh-part map" % (key, e.name))
                 continue
-            elem = loops[0].loop.var
+            elem = lp0.var
             if arg is not None and arg.get("k") == "Null":
                 verdict = ("null", None)
             elif arg is not None and arg.get("k") == "MCall" and arg.get("n") == "make_unique" and strip(arg.get("obj")).get("k") == "Ref":
@@ -1373,25 +1394,39 @@ def rule_nonnull_arg(w):
                     obs.setdefault(key, []).append((None, gtxt, fn.file, e.node.get("l")))
                     continue
                 asg = [x for x in fk.events if x.kind == "obj-assign" and x.key == a2["n"] and x.seq < e.seq]
-                uncond = [x for x in asg if frames_key(x.frames) == frames_key(e.frames)]
-                cond = [x for x in asg if len(x.frames) > len(e.frames) and frames_key(x.frames[:len(e.frames)]) == frames_key(e.frames)]
-                # the call sits in the very branch that assigned the part (`if(build) { p = make(); add(p); }`)
-                same = [x for x in asg if len(x.frames) <= len(e.frames) and all(f1.node is f2.node and f1.branch == f2.branch for f1, f2 in zip(x.frames, e.frames))
-                        and not any(f.kind == "loop" for f in e.frames[len(x.frames):])]
+
+                def common(x):
+                    k = 0
+                    while k < len(x.frames) and k < len(e.frames) and x.frames[k].node is e.frames[k].node and x.frames[k].branch == e.frames[k].branch:
+                        k += 1
+                    return k
+                # assignments that lie on every path to the call (their context encloses the call's context) vs. assignments under an extra condition
+                dom = [x for x in asg if common(x) == len(x.frames)]
+                condl = [x for x in asg if common(x) < len(x.frames)]
                 tests = [f for f in e.frames if f.kind == "if" and norm_c12.mentions(f.node.get("c"), a2["d"])] + \
                         [x for x in fk.events if x.kind == "if" and x.seq < e.seq and norm_c12.mentions(x.node.get("c"), a2["d"]) and (not asg or x.seq > asg[-1].seq)]
-                if (uncond or same) and _fresh_nonnull(w, (uncond or same)[-1].rhs) and (uncond or same)[-1] is asg[-1]:
-                    obs.setdefault(key, []).append((True, "%s is assigned a fresh mesh part on every path to %s()" % (a2["n"], e.name), fn.file, e.node.get("l")))
-                elif uncond or same:
-                    obs.setdefault(key, []).append((True, "%s is assigned on every path before it is handed to %s" % (a2["n"], e.name), fn.file, e.node.get("l")))
+                if dom and dom[-1] is asg[-1]:
+                    fresh = _fresh_nonnull(w, dom[-1].rhs)
+                    obs.setdefault(key, []).append((True, "%s is assigned %son every path before it is handed to %s" % (a2["n"], "a fresh mesh part " if fresh else "", e.name), fn.file, e.node.get("l")))
                 elif tests:
                     obs.setdefault(key, []).append((None, "%s is tested in `%s` before %s(), a test this rule does not read as a non-null guard" % (
                         a2["n"], render((tests[0].node).get("c"))[:70], e.name), fn.file, e.node.get("l")))
-                elif cond and all(any(f.kind == "if" for f in x.frames[len(e.frames):]) for x in cond):
-                    c0 = [f for f in cond[0].frames[len(e.frames):] if f.kind == "if"][0]
-                    obs.setdefault(key, []).append((False, "%s is default-constructed (null) and only assigned under `%s`; on the other path the null pointer is passed to %s(), whose entry "
-                                                    "assertion on `%s` aborts (a base %s that does not intersect the patch)" % (
-                                                        a2["n"], render(c0.node.get("c"))[:70], e.name, pn[i], "halo" if e.name == "add_halo" else "patch mesh part"), fn.file, e.node.get("l")))
+                elif condl and not dom and all(any(f.kind == "if" for f in x.frames[common(x):]) for x in condl):
+                    x0 = condl[0]
+                    c0 = [f for f in x0.frames[common(x0):] if f.kind == "if"][0]
+                    acanon = {f.canon for x in condl for f in x.frames[common(x):] if f.kind == "if"}
+                    retest = [f for f in e.frames if f.kind == "if" and (f.canon in acanon or any(a_ and a_ in f.canon for a_ in acanon))
+                              and not any(f.node is g.node for x in condl for g in x.frames)]
+                    if retest:
+                        obs.setdefault(key, []).append((None, "%s is assigned under `%s` and %s() is called under the re-evaluated condition `%s`: whether both agree is not decided" % (
+                            a2["n"], c0.canon[:70], e.name, retest[0].canon[:70]), fn.file, e.node.get("l")))
+                    else:
+                        obs.setdefault(key, []).append((False, "%s is default-constructed (null) and only assigned under `%s`; on the other path the null pointer is passed to %s(), whose entry "
+                                                        "assertion on `%s` aborts (a base %s that does not intersect the patch)" % (
+                                                            a2["n"], render(c0.node.get("c"))[:70], e.name, pn[i], "halo" if e.name == "add_halo" else "patch mesh part"), fn.file, e.node.get("l")))
+                elif not asg and not tests and not elsewhere(fk, (a2["n"],), names=C12NAMES):
+                    obs.setdefault(key, []).append((False, "%s is default-constructed (null) and never assigned before it is passed to %s(), whose entry assertion on `%s` aborts" % (
+                        a2["n"], e.name, pn[i]), fn.file, e.node.get("l")))
                 else:
                     obs.setdefault(key, []).append((None, "definition of %s before %s() not understood" % (a2["n"], e.name), fn.file, e.node.get("l")))
     if n == 0 and not obs:
@@ -1444,8 +1479,9 @@ def run(tier):
             "insertion result loses a halo whenever a new rank equals the old rank of a halo not yet renamed (rank swaps)", 1)
     ck.rule("E7.parti-retry", "PartiIterative's centre search repeats when a cell was not reached: the loop flag can become true inside the loop "
             "(a flag reset to false and then only `&=`-ed is dead: unreached cells keep an uninitialised patch number)", 1)
-    ck.rule("E7.nonnull-arg", "extract_patch hands a split mesh part to add_halo/add_patch (which assert a non-null part) only if it is assigned on every path "
-            "(a part that does not intersect the patch leaves the local null)", 2)
+    ck.rule("E7.nonnull-arg", "extract_patch hands a mesh part to add_halo/add_patch (which assert a non-null part) only if it is non-null on that path: assigned on every path, "
+            "created in place (make_unique), or the call is control dependent on a non-null test of the argument (if(p), if(p != nullptr), `if(!p) continue;`, ...); "
+            "a part that does not intersect the patch leaves the local null, so an unguarded call aborts", 2)
     ck.rule("E12.bcast-agree", "PartiIterative::build_elems_at_rank: sending and receiving branch broadcast identical counts into sufficiently long arrays and build graphs of identical dimensions", 1)
     ck.rule("E7.parti-precond", "PartiIterative checks num_patches > 0 and num_elems >= num_patches before drawing distinct centre cells", 2)
     w = World(ck, tier)
@@ -1462,6 +1498,8 @@ def run(tier):
     rule_rekey(w)
     rule_parti_retry(w)
     rule_nonnull_arg(w)
+    if w.norm.log:
+        ck.note("read through normalisation (lib/norm_c12.py): " + "; ".join("%s: %s" % (k.replace("FEAT::Geometry::", "")[:70], ", ".join(sorted(set(v)))) for k, v in sorted(w.norm.log.items()))[:1500])
     ck.assume("TargetSet: entries are indices of the parent (base) mesh entities, one per part entity; IndexSet(i,j): i < get_num_entities(), value < get_index_bound(); "
               "Graph accessor contracts as in C19")
     ck.assume("documented parameter roles: tsh = target set holder of the patch mesh part (into the base mesh), ish = index set holder of the base mesh, ranks_at_elem = one node per "
